@@ -307,8 +307,31 @@ def step(ctx, g, name, obj, ids, regime, nxt, hist, coords, sibs):
     return out
 
 
+def narrow_labels(obj):
+    """Hand the object's integer label arrays over in the smallest integer dtype that holds their values (the setters
+    accept any integer dtype; sources differ: int32 positions from one reader, int64 from another)."""
+    done = False
+    for f in ("taxa_grp", "vrnt_chrgrp", "vrnt_phypos", "vrnt_hapgrp"):
+        v = getattr(obj, f, None)
+        if v is None or len(v) == 0 or numpy.asarray(v).dtype.kind != "i":
+            continue
+        v = numpy.asarray(v)
+        for dt in ("int8", "int16", "int32"):
+            if numpy.iinfo(dt).min <= v.min() and v.max() <= numpy.iinfo(dt).max:
+                if v.dtype != numpy.dtype(dt):
+                    try:
+                        setattr(obj, f, v.astype(dt)); done = True
+                    except TypeError:
+                        pass       # this class's setter insists on int64: narrower labels are outside its domain
+                break
+    return done
+
+
 def step_(ctx, g, name, obj, ids, regime, nxt, hist, coords, sibs):
     cls = klass(name)
+    if g.random() < 0.12 and narrow_labels(obj):
+        hist.append("integer labels narrowed to the smallest holding dtype")
+        ctx.sumnote("label dtype narrowings")
     axmap = axes_of(name)
     axis = list(axmap)[int(g.integers(len(axmap)))]
     ax = axmap[axis][0]
@@ -332,7 +355,10 @@ def step_(ctx, g, name, obj, ids, regime, nxt, hist, coords, sibs):
 
     def other(k):
         nw = newids(k); i2 = dict(ids); i2[axis] = nw
-        return build(name, i2, regime), nw
+        o_ = build(name, i2, regime)
+        if g.random() < 0.1:
+            narrow_labels(o_)
+        return o_, nw
 
     def rawkw(o):
         return {f: getattr(o, f) for f in regime.labels(axis, [0]).keys()}
@@ -762,7 +788,7 @@ def one_history(ctx, c):
     for a in axes_of(name):
         k = 1 if (small and g.random() < 0.6) else int(g.integers(1, 6))
         ids[a] = g.choice(50, k, replace=False).tolist()
-    nxt = {"taxa": 100, "vrnt": 200, "trait": 60}
+    nxt = {"taxa": 100, "vrnt": int(g.choice([200, 200, 212])), "trait": 60}     # from 215 on physical positions exceed int32
     coords = [c, "hist"]
     try:
         obj = build(name, ids, regime)
